@@ -7,6 +7,42 @@ from ..encsum import all_summaries
 LEVEL = 'proof'
 
 
+def check_bake_identity(rep, facts, rule):
+    """The operand an encoder refuses or accepts is the number the immediate expression evaluated to: between that evaluation and
+    the construction of the final item no transformation may be applied to it (a 32-bit wrap, a mask, a clamp would turn an
+    unrepresentable operand into a representable one before the encoder's range check sees it)."""
+    from .. import layoutrules as LR, immsites as IS
+    from ..layout import pipeline
+    from ..pathwalk import show, is_const, C
+    from ..core import AnalysisError
+    n = 0
+    for name, guard, node, args, tgt in pipeline(facts):
+        if name in ('resolve_blobs',):
+            continue
+        pa = LR.pass_analysis(facts, name)
+        for r in pa.rows:
+            p = r['path']
+            if p.end == 'raise':
+                continue
+            for ev in p.events:
+                if ev[0] != 'setitem' or ev[2] != C('imm'):
+                    continue
+                v = ev[3]
+                while v[0] == 'res':
+                    v = v[3]
+                evals = IS.find_all(v, lambda t: (t[0] == 'mcall' and t[2] == 'eval' and len(t[3]) == 3) or
+                                    (t[0] == 'call' and t[1] in facts.funcs and len(t[2]) >= 2 and t[2][0] == pa.item))
+                if not evals:
+                    continue           # not an evaluated immediate (e.g. a re-wrapped expression object)
+                n += 1
+                rep.check(v in evals, rule, '{}: the evaluated immediate is stored unchanged'.format(name),
+                          lambda ev=ev, v=v, name=name: Finding(rule, name, ev[4],
+                                                                'the evaluated immediate is transformed ({}) before it reaches the encoder: an operand outside the '
+                                                                'encodable range can be mapped into it instead of being refused'.format(show(v)[:90]),
+                                                                line=getattr(ev[4], 'lineno', None)))
+    rep.count('immediate baking sites', n)
+
+
 def run(repo, tier):
     facts = Facts(repo.asm)
     rep = Report('C06', LEVEL,
@@ -29,6 +65,8 @@ def run(repo, tier):
             sites.add((r['fn'], r['node'].lineno))
     rep.analysed['refusal sites reached'] = len(sites)
     encprops.check_registers(rep, facts, 'R6.registers')
+    check_bake_identity(rep, facts, 'R6.bake-identity')
+    rep.floor('immediate baking sites', 1)
     rep.floor('mnemonic bindings', 93)
     rep.floor('refusal sites reached', 30)
     return rep
